@@ -22,7 +22,8 @@ CallPaths == {"call", "extra_seg", "lead_seg"}
 NameClasses == {"exact", "suffix", "prefix", "case", "other_exposed", "unexposed_registered", "unknown"}
 \* method_slow: a method that takes longer than the gateway's communication timeout (the timeout is configured for these requests)
 \* method_streams: a method whose result is an iterator (a generator): not something that fits into one HTTP answer
-MemberClasses == {"method", "method_raises", "attribute", "meta", "unknown", "private", "method_slow", "method_streams"}
+\* method_vanishes: a method after whose execution the connection to the daemon is lost, so that its answer never arrives
+MemberClasses == {"method", "method_raises", "attribute", "meta", "unknown", "private", "method_slow", "method_streams", "method_vanishes"}
 KeyCfgs == {"none", "set"}
 Presented == {"absent", "wrong", "right"}
 \* default: http\.   anchored: http\.echo$   empty: no pattern configured (everything is exposed)
@@ -74,6 +75,8 @@ Forward(r) ==
                                           ELSE [inv |-> 1, status |-> 500, body |-> "error"]       \* once, never again
            [] r.member = "method_streams" -> IF r.oneway THEN [inv |-> 1, status |-> 200, body |-> "any"]
                                              ELSE [inv |-> 1, status |-> 500, body |-> "error"]       \* never 200 with nothing in it
+           [] r.member = "method_vanishes" -> IF r.oneway THEN [inv |-> 1, status |-> 200, body |-> "any"]
+                                              ELSE [inv |-> 1, status |-> 500, body |-> "error"]       \* once: the gateway does not try again
            [] r.member = "attribute" -> [inv |-> 1, status |-> 200, body |-> IF r.oneway THEN "any" ELSE "result"]
 
 VARIABLE r
@@ -87,5 +90,5 @@ OnlyAuthorised == (TrafficAllowed(r) /\ Decide(r) # "index") =>
                      /\ r.meth \in {"GET", "POST"} /\ r.path \in CallPaths
 \* something runs behind the gateway only for a registered object's existing public member
 InvokesOnlyNamed == (Decide(r) \in {"forward", "denied_or_forward"} /\ Forward(r).inv = 1) =>
-                        Registered(r.name) /\ r.member \in {"method", "method_raises", "attribute", "method_slow", "method_streams"}
+                        Registered(r.name) /\ r.member \in {"method", "method_raises", "attribute", "method_slow", "method_streams", "method_vanishes"}
 =============================================================================
